@@ -33,10 +33,14 @@ def check(run):
         run.guard("C13.4.redirect-vs-redirect-rule", cfg, lambda: rule_block(run, F, cfg))
         run.guard("C13.5.lookup", cfg, lambda: rule_lookup(run, F, cfg))
         run.guard("C13.6.priority-suffix", cfg, lambda: rule_priority(run, F, cfg))
+        run.guard("C13.6.priority-suffix", cfg + "/slices", lambda: rule_priority_slices(run, F, cfg))
         b = run.borrow("C06", why="redirect rules added one by one must reach the same lists as in a batch build")
         run.guard("C13.via.C06.4.batch-incremental", cfg, lambda: _C06.rule_routing(b, F, cfg))
         b2 = run.borrow("C05", only=r"field:(modifier_option|mask)\b", why="redirect rules with different targets must not be fused")
         run.guard("C13.via.C05.1.fusion-key", cfg, lambda: _C05.rule_key(b2, F, cfg))
+        from . import C03 as _C03
+        b3 = run.borrow("C03", only=r"flags-set-true|name:redirect|bit:redirect", why="$redirect / $redirect-rule must set IS_REDIRECT (and ALSO_BLOCK_REDIRECT)")
+        run.guard("C13.via.C03.1.option-chain", cfg, lambda: (_C03.rule_chain(b3, F, cfg), _C03.rule_polarity(b3, F, cfg)))
 
 
 def rule_gate(run, F, cfg):
@@ -282,3 +286,26 @@ def rule_priority(run, F, cfg):
            f"resource name (priority 0); offending constructions: {bad[:2]}",
            site=bad[0][0] if bad else f.loc(0), config=cfg,
            detail="e.g. `$redirect=abp-resource:blank-js` must look up `abp-resource:blank-js`, not `abp-resource`")
+
+
+def rule_priority_slices(run, F, cfg):
+    """`name:priority`: split at the LAST ':', the priority is everything after it, the resource everything
+    before it; a higher priority replaces the current best"""
+    f = F.fn("blocker::Blocker::check_parameterised")
+    idx = sorted(re.sub(r"<std::string::String as std::ops::Index<I>>::index", "index", f.vexpr_call(t))
+                 for b, t in f.calls(r"index$") if f.vexpr_call(t).count("$redirect"))
+    want = sorted(["index($redirect, std::ops::RangeFrom::RangeFrom{start: ($idx AddWithOverflow 1).0})",
+                   "index($redirect, std::ops::RangeTo::RangeTo{end: $idx})",
+                   "index($redirect, std::ops::RangeFull::RangeFull{})",
+                   "index($redirect, std::ops::RangeFull::RangeFull{})"])
+    sp = [f.vexpr_call(t) for b, t in f.calls(r"memchr::memrchr$|find_char_reverse$|str::rfind$|rsplit_once$")]
+    ok_split = sp == ["memchr::memrchr(58, std::string::String::as_bytes($redirect))"] or \
+        (len(sp) == 1 and "rsplit_once($redirect, ':')" in sp[0])
+    run.ob("C13.6.priority-suffix", "slices", idx == want and ok_split,
+           f"the option is split at the last ':' into resource = redirect[..idx] and priority = redirect[idx+1..] "
+           f"(fallback: the whole string with priority 0); found split {sp}, slices {idx}", site=f.loc(0), config=cfg)
+    cmp_ = [f.vexpr_rvalue(st["rv"]) for b, i, st in f.statements()
+            if st["k"] == "assign" and st["rv"]["k"] == "binop" and st["rv"]["op"] in ("Gt", "Ge", "Lt", "Le")
+            and "$priority" in f.vexpr_rvalue(st["rv"])]
+    run.ob("C13.6.priority-suffix", "higher-priority-wins", cmp_ in (["($priority Gt $p1)"], ["($priority Ge $p1)"], ["($p1 Lt $priority)"], ["($p1 Le $priority)"]),
+           f"the candidate replaces the current best only when its priority is greater (ties: either order) ({cmp_})", config=cfg)
